@@ -68,7 +68,7 @@ def wrapper_rule(ctx, prog):
     CONTRACT = {
         'read': (['len0', 'nullh', 'magic', 'neg', 'rmode', 'ralign', 'eof', 'rslot'],
                  ['(psf->last_op != SFM_READ)', 'psf->seek(psf, SFM_READ, psf->read_current)', '(count = psf->read_T(psf, ptr, len))', '(psf->read_current += (count / psf->sf.channels))',
-                  '(count = ((psf->sf.frames - psf->read_current) * psf->sf.channels))', 'psf_memset((ptr + count), 0, (extra * sizeof(T)))', '(psf->read_current = psf->sf.frames)',
+                  '(count = ((psf->sf.frames - psf->read_current) * psf->sf.channels))', 'psf_memset((ptr + count), 0, ((len - count) * sizeof(T)))', '(psf->read_current = psf->sf.frames)',
                   '(psf->last_op = SFM_READ)', '["return", "count"]', 'psf_memset(ptr, 0, (len * sizeof(T)))']),
         'readf': (['len0', 'nullh', 'magic', 'neg', 'rmode', 'eof', 'rslot'],
                   ['(psf->last_op != SFM_READ)', 'psf->seek(psf, SFM_READ, psf->read_current)', '(count = psf->read_T(psf, ptr, (frames * psf->sf.channels)))',
